@@ -42,6 +42,9 @@ def main(tier, only=None):
         for form, fk in ((0, "hash-line"), (1, "gnu-marker")):
             hs.append(e1.H("h_line_relative", "line/%s/inside-conditional-group" % fk, unwind=14, defines=("FORM=%d" % form, "__NO_CTYPE", "INCOND"), timeout=600,
                            desc="the same directive between #ifdef and #endif: accepted, and __LINE__ advances with the physical line"))
+        for form, fk in ((0, "hash-line"),):      # `# L` is not a line marker: only the #line form takes a macro operand
+            hs.append(e1.H("h_line_macro_operand", "line/%s/macro-operand-equals-literal" % fk, unwind=14, defines=("FORM=%d" % form, "__NO_CTYPE"), timeout=900,
+                           desc="`#line L` with `#define L n` on an arbitrary line behaves as `#line n` (6.10.4p5), differential of two runs of the real preprocess()"))
         hs.append(e1.H("h_line_macro_origin", "line/macro-origin/line-and-file-of-outermost-invocation", unwind=14, defines=("FORM=0", "__NO_CTYPE"), timeout=600))
         chk.bounds += ["__LINE__/__FILE__ in a macro body: origin chains of depth 0..2 across three files with symbolic physical lines and symbolic #line offsets per file"]
         e1.run_set(chk, "c18/line.c", hs, workers=int(os.environ.get("VERIF_WORKERS", "8")))
